@@ -84,7 +84,13 @@ def step (s : St) (line : String) : St × String :=
       match follow s.buf.mem t o (parsePath path) with
       | .ok (tt, a) =>
         match resolve tt s.buf.mem a with
-        | some (t2, a2) => (s, s!"caches {viewCaches s.buf.mem t2 a2}")
+        | some (t2, a2) =>
+          -- the proof model's view strides (the subject of `view_strides`) on the same bytes
+          let pm : Bool := match t2, Drv.LayP.tyP t2 with
+            | .array .., some (.array it shp ord) => Lay.viewStrides it shp ord s.buf.mem.toList a2 == (arrView t2 s.buf.mem a2).strides
+            | _, _ => true
+          if !pm then (s, "PROOF-MODEL-DIFFERS strides") else
+          (s, s!"caches {viewCaches s.buf.mem t2 a2}")
         | none => (s, "caches none")
       | .error e => (s, s!"err {e.str}")
     | none => (s, "bad-op")
